@@ -49,6 +49,10 @@ Definition build_tag_frame (p : mpeg_p) (off : Z) (tag : list Z) : list Z :=
   let head := build_mpeg_header p ++ zeros (off - 4) ++ tag in
   head ++ zeros (spec_mpeg_frame_length p - zlen head).
 
+Definition lame399r : list Z := [76;65;77;69;51;46;57;57;114].    (* "LAME3.99r" *)
+Definition opt_u32 (o : option Z) : Prop := match o with Some v => 0 <= v < 4294967296 | None => True end.
+Definition opt_val (o : option Z) : Z := match o with Some v => v | None => -1 end.
+
 (* ------------------------------------------------------------------ CODE side *)
 Fixpoint lstrip_set (set l : list Z) : list Z :=
   match l with
